@@ -4,6 +4,7 @@ import (
 	"context"
 	"crypto/sha256"
 	"fmt"
+	"os"
 	"path/filepath"
 	"strconv"
 	"sync"
@@ -168,6 +169,14 @@ func (g *rig) close() {
 	if g.db != nil {
 		g.db.Close()
 		g.db = nil
+	}
+}
+
+// discard closes the store and removes its scratch files.
+func (g *rig) discard() {
+	g.close()
+	if g.path != "" {
+		os.RemoveAll(filepath.Dir(g.path))
 	}
 }
 
